@@ -262,3 +262,27 @@ Print Assumptions c05_float_of_negative.
 Print Assumptions c05_f32_of_f64_normal.
 Print Assumptions c05_f32_of_f64_unfold.
 Print Assumptions c05_f32_of_f64_subnormal.
+
+(** f64 -> f32 on the remaining inputs: infinities and zeros keep their sign, every NaN becomes the
+    canonical f32 NaN, a subnormal f64 (far below half the least positive f32) becomes a signed zero *)
+Theorem c05_f32_of_f64_special : forall b : N,
+  let sign := N.testbit b 63 in
+  let ef := N.land (N.shiftr b 52) 2047 in
+  let mf := N.land b 4503599627370495 in
+  let signbit := if sign then (2 ^ 31)%N else 0%N in
+  (ef = 2047%N -> mf = 0%N -> f32_of_f64 b = (signbit + 255 * 2 ^ 23)%N)
+  /\ (ef = 2047%N -> mf <> 0%N -> f32_of_f64 b = nan32)
+  /\ (ef = 0%N -> mf = 0%N -> f32_of_f64 b = signbit)
+  /\ (ef = 0%N -> mf <> 0%N -> f32_of_f64 b = signbit).
+Proof. exact f32_of_f64_special. Qed.
+
+Check c05_f32_of_f64_special : forall b : N,
+  let sign := N.testbit b 63 in
+  let ef := N.land (N.shiftr b 52) 2047 in
+  let mf := N.land b 4503599627370495 in
+  let signbit := if sign then (2 ^ 31)%N else 0%N in
+  (ef = 2047%N -> mf = 0%N -> f32_of_f64 b = (signbit + 255 * 2 ^ 23)%N)
+  /\ (ef = 2047%N -> mf <> 0%N -> f32_of_f64 b = nan32)
+  /\ (ef = 0%N -> mf = 0%N -> f32_of_f64 b = signbit)
+  /\ (ef = 0%N -> mf <> 0%N -> f32_of_f64 b = signbit).
+Print Assumptions c05_f32_of_f64_special.
